@@ -7,8 +7,15 @@
   `_topo_reorder`); the flag constants, the `min_stamp` default, which callers pass the `min_stamp` cut and
   `_MAX_EXTRA_COMMITS` come from Gen/Graph.lean, which the translator regenerates from /repo on every run.
 
-  `Anc g a c` = "a is c or an ancestor of c"; `CA g c1 c2s x` = "x is a common ancestor of c1 and one of
-  c2s"; `MaxCA` = "... and no strict ancestor of another common ancestor" (the graph-theoretic merge base).
+  Vocabulary (defined at the end of Model/LCA.lean): `Anc g a c` = "a is c or an ancestor of c"; `SAnc` =
+  strict ancestor; `CA g c1 c2s x` = "x is a common ancestor of c1 and of one of c2s"; `MaxCA` = "... and not a
+  strict ancestor of another common ancestor" (the graph-theoretic merge base); `g.WF` = every parent is a
+  commit `< g.n`; `g.StrictMono` = stamps strictly increase from every parent to its child.
+
+  What holds for EVERY graph and EVERY clock: §1 soundness, §2 termination, §3 completeness, §5 walks without
+  excludes.  What needs `StrictMono` (and is false without it — §6 witnesses, replayed on the real code by the
+  harness): §4 exactness of merge base / fast-forward / independent.  `find_octopus_base` is not exact even
+  under `StrictMono` (§6).
 -/
 import DulwichModel.Lemmas.LCA
 import DulwichModel.Lemmas.Walk
@@ -126,6 +133,27 @@ theorem lcas_complete (g : Graph) (hwf : g.WF) (c1 : Nat) (c2s : List Nat) (h1 :
   obtain ⟨hinv, hnc⟩ := loop_all (m := minStamp) hwf h1 h2 hs
   rw [mem_result hres]
   exact final_has_max hinv.sound hinv.live hnc hx (fun y hy => Int.not_lt.mpr (hcut y hy))
+
+/-- Consequence for EVERY clock (closed acyclic history, non-negative stamps, no `min_stamp` cut): `c1` is in
+`_find_lcas(c1, [c2])` exactly when `c1` is `c2` or an ancestor of `c2`.  So the *membership* test
+`c1 in _find_lcas(c1, [c2])` is an exact ancestry test on any clock, whereas the equality test `lcas == [c1]`
+with the `min_stamp` cut that `can_fast_forward` uses is not (§6) — this is the basis of the proposed fix. -/
+theorem ancestor_iff_mem_lcas (g : Graph) (hwf : g.WF) (rk : Nat → Nat)
+    (hrk : ∀ c p, p ∈ g.parents c → rk p < rk c) (hpos : ∀ z, 0 ≤ g.ts z) (c1 c2 : Nat) (h1 : c1 < g.n)
+    (h2 : c2 < g.n) (fuel : Nat) (r : List Nat) (h : findLcasFuel fuel g c1 [c2] 0 = .ok r) :
+    c1 ∈ r ↔ Anc g c1 c2 := by
+  constructor
+  · intro hc
+    obtain ⟨_, c2', hc2, ha⟩ := lcas_are_common_ancestors g c1 [c2] 0 fuel r h c1 hc
+    simp only [List.mem_singleton] at hc2
+    subst hc2; exact ha
+  · intro hanc
+    apply lcas_complete g hwf c1 [c2] h1 (by simp [h2]) 0 fuel r h c1 _ (fun y _ => hpos y)
+    refine ⟨⟨Anc.refl c1, c2, by simp, hanc⟩, ?_⟩
+    rintro ⟨y, ⟨hy, _⟩, hsy⟩
+    have := hsy.rk_lt hrk
+    have := hy.rk_le hrk
+    omega
 
 /-! ## 4. exactness — full statements (false on the unchanged code) and what is proved -/
 
@@ -251,80 +279,78 @@ theorem independent_exact_partial (g : Graph) (hwf : g.WF) (hmono : g.StrictMono
 /-! ## 5. history walks -/
 
 /-- `_topo_reorder`, for every input order of distinct commits of an acyclic history (`rk` is any rank that
-increases from parent to child): whenever the loop finishes, the output is a permutation of the input and a
-commit never comes before one of its children.  (That the loop finishes within `2·|entries| + 1` iterations
-is checked by the correspondence on every case, not proved.) -/
-theorem topo_reorder_correct_partial (parents : Nat → List Nat) (entries : List Nat) (hnd : entries.Nodup)
-    (rk : Nat → Nat) (hrk : ∀ c p, p ∈ parents c → rk p < rk c) (out : List Nat)
-    (h : Walk.topoReorder parents entries = some out) :
-    out.Perm entries ∧ out.Pairwise (fun earlier later => earlier ∉ parents later) :=
-  Walk.topoLoop_correct hnd rk hrk _ _ _ _ (Walk.topoReorder_init parents entries) h
-
-/-- The full statement for `_topo_reorder` (adds termination to `topo_reorder_correct_partial`). -/
-def TopoReorderCorrectStatement : Prop :=
-  ∀ (parents : Nat → List Nat) (entries : List Nat), entries.Nodup →
-    ∀ (rk : Nat → Nat), (∀ c p, p ∈ parents c → rk p < rk c) →
+increases from parent to child): the loop finishes (every entry is taken from `todo` at most twice), the output
+is a permutation of the input, and a commit never comes before one of its children. -/
+theorem topo_reorder_correct (parents : Nat → List Nat) (entries : List Nat) (hnd : entries.Nodup)
+    (rk : Nat → Nat) (hrk : ∀ c p, p ∈ parents c → rk p < rk c) :
     ∃ out, Walk.topoReorder parents entries = some out ∧ out.Perm entries ∧
-      out.Pairwise (fun earlier later => earlier ∉ parents later)
+      out.Pairwise (fun earlier later => earlier ∉ parents later) := by
+  have hinit := Walk.topoReorder_init parents entries
+  obtain ⟨out, hout⟩ := Walk.topoLoop_terminates hnd (2 * entries.length + 1) _ [] hinit (by
+    unfold Walk.tmu
+    have := Walk.wsum_le (Walk.countChildren parents entries) entries
+    simp only [List.length_nil]
+    omega)
+  exact ⟨out, hout, Walk.topoLoop_correct hnd rk hrk _ _ _ _ hinit hout⟩
 
-/-- A walk without excludes, `since`, `until`, `max_entries` yields exactly the commits reachable from the
-start points, each once — for every DAG and every assignment of stamps, in date or topo order, reversed or
-not; in topo order no commit comes before one of its children (after one of them when reversed).
-Partial: "whenever the model's loops finish" (fuel exhaustion is `none`; the correspondence never saw it). -/
-theorem walk_each_once_partial (g : Graph) (incl : List Nat) (topo reverse : Bool)
-    (rk : Nat → Nat) (hrk : ∀ c p, p ∈ g.parents c → rk p < rk c) (out : List Nat)
-    (h : Walk.walk g { incl := incl, excl := [], topo := topo, reverse := reverse, maxEntries := none,
-                       since := none, untl := none } = some out) :
-    out.Nodup ∧ (∀ c, c ∈ out ↔ ∃ i, i ∈ incl ∧ Anc g c i) ∧
-    (topo = true →
-      (if reverse then out.reverse else out).Pairwise (fun earlier later => earlier ∉ g.parents later)) := by
-  unfold Walk.walk at h
-  simp only at h
-  split at h
-  · cases h
-  · rename_i q excluded hq
-    unfold Walk.queueOutput at hq
-    split at hq
-    · cases hq
-    · rename_i s q0 hdrain
-      simp only [List.isEmpty_nil, if_true, Option.some.injEq, Prod.mk.injEq] at hq
-      obtain ⟨rfl, rfl⟩ := hq
-      obtain ⟨hinv, hdone⟩ := Walk.qInit_inv g incl
-      obtain ⟨hex, hnd, hmem⟩ := Walk.drain_correct _ _ _ _ _ hinv hdone.symm hdrain
-      rw [hex, Walk.filter_shouldReturn_all g _ rfl rfl] at h
-      cases topo with
-      | false =>
-        simp only [Bool.false_eq_true, if_false, Option.some.injEq] at h
-        subst h
-        refine ⟨?_, ?_, fun hf => by cases hf⟩
-        · split
-          · exact (List.Perm.nodup_iff (List.reverse_perm _)).mpr hnd
-          · exact hnd
-        · intro c
-          split
-          · rw [List.mem_reverse]; exact hmem c
-          · exact hmem c
-      | true =>
-        simp only [if_true] at h
-        split at h
-        · cases h
-        · rename_i l hl
-          simp only [Option.some.injEq] at h
-          subst h
-          obtain ⟨hperm, hord⟩ := topo_reorder_correct_partial g.parents q0 hnd rk hrk l hl
-          refine ⟨?_, ?_, fun _ => ?_⟩
-          · split
-            · exact (List.Perm.nodup_iff ((List.reverse_perm _).trans hperm)).mpr hnd
-            · exact (List.Perm.nodup_iff hperm).mpr hnd
-          · intro c
-            split
-            · rw [List.mem_reverse, hperm.mem_iff]; exact hmem c
-            · rw [hperm.mem_iff]; exact hmem c
-          · split
-            · rw [List.reverse_reverse]; exact hord
-            · exact hord
+/-- walker options: start points and order only (no excludes, no window, no limit) -/
+def plainWalk (incl : List Nat) (topo reverse : Bool) : Walk.Opts :=
+  { incl := incl, excl := [], topo := topo, reverse := reverse, maxEntries := none, since := none, untl := none }
 
-/-! ## negation witnesses (F14): the unchanged code is not exact on skewed / equal clocks -/
+/-- A walk without excludes, `since`, `until`, `max_entries` over a closed acyclic history terminates and
+yields exactly the commits reachable from the start points, each once — for every assignment of stamps, in
+date or topo order, reversed or not; in topo order no commit comes before one of its children (after, when
+reversed). -/
+theorem walk_each_once (g : Graph) (hwf : g.WF) (incl : List Nat) (hincl : ∀ i, i ∈ incl → i < g.n)
+    (topo reverse : Bool) (rk : Nat → Nat) (hrk : ∀ c p, p ∈ g.parents c → rk p < rk c) :
+    ∃ out, Walk.walk g (plainWalk incl topo reverse) = some out ∧
+      out.Nodup ∧ (∀ c, c ∈ out ↔ ∃ i, i ∈ incl ∧ Anc g c i) ∧
+      (topo = true →
+        (if reverse then out.reverse else out).Pairwise (fun earlier later => earlier ∉ g.parents later)) := by
+  obtain ⟨hinv, hdone⟩ := Walk.qInit_inv g incl
+  obtain ⟨⟨s, q⟩, hdrain⟩ := Walk.drain_terminates hwf hincl (g.n + 2) _ [] hinv (by omega)
+  obtain ⟨hex, hnd, hmem⟩ := Walk.drain_correct _ _ _ _ _ hinv hdone.symm hdrain
+  have hq : Walk.queueOutput g incl [] none = some (q, []) := by
+    simp only [Walk.queueOutput, hdrain, List.isEmpty_nil, if_true, hex]
+  have hfilter : ∀ o : Walk.Opts, o.since = none → o.untl = none →
+      q.filter (Walk.shouldReturn g o []) = q := fun o h1 h2 => Walk.filter_shouldReturn_all g o h1 h2 q
+  cases topo with
+  | false =>
+    refine ⟨if reverse then q.reverse else q, ?_, ?_, ?_, fun hf => by cases hf⟩
+    · unfold Walk.walk
+      have e1 : (plainWalk incl false reverse).incl = incl := rfl
+      have e2 : (plainWalk incl false reverse).excl = [] := rfl
+      have e3 : (plainWalk incl false reverse).since = none := rfl
+      simp only [e1, e2, e3, hq, hfilter (plainWalk incl false reverse) rfl rfl]
+      cases reverse <;> simp [plainWalk]
+    · split
+      · exact (List.Perm.nodup_iff (List.reverse_perm _)).mpr hnd
+      · exact hnd
+    · intro c
+      split
+      · rw [List.mem_reverse]; exact hmem c
+      · exact hmem c
+  | true =>
+    obtain ⟨l, hl, hperm, hord⟩ := topo_reorder_correct g.parents q hnd rk hrk
+    refine ⟨if reverse then l.reverse else l, ?_, ?_, ?_, fun _ => ?_⟩
+    · unfold Walk.walk
+      have e1 : (plainWalk incl true reverse).incl = incl := rfl
+      have e2 : (plainWalk incl true reverse).excl = [] := rfl
+      have e3 : (plainWalk incl true reverse).since = none := rfl
+      simp only [e1, e2, e3, hq, hfilter (plainWalk incl true reverse) rfl rfl]
+      cases reverse <;> simp [plainWalk, hl]
+    · split
+      · exact (List.Perm.nodup_iff ((List.reverse_perm _).trans hperm)).mpr hnd
+      · exact (List.Perm.nodup_iff hperm).mpr hnd
+    · intro c
+      split
+      · rw [List.mem_reverse, hperm.mem_iff]; exact hmem c
+      · rw [hperm.mem_iff]; exact hmem c
+    · split
+      · rw [List.reverse_reverse]; exact hord
+      · exact hord
+
+/-! ## 6. negation witnesses (F14 and two more): the unchanged code is not exact on skewed / equal clocks -/
 
 /-- chain `0 ← 1 ← 2` (1's parent is 0, 2's parent is 1) with stamps (1,0,0) -/
 def chain3 : Graph := Graph.ofLists [[], [0], [1]] [1, 0, 0]
@@ -385,7 +411,27 @@ theorem octopus_fold_counterexample :
 theorem independent_duplicate_counterexample :
     independent (Graph.ofLists [[], [0]] [0, 1]) [1, 1] = .ok [] := by decide
 
-/-! ## non-vacuity: the hypotheses of the theorems hold on non-trivial histories -/
+/-- the independence statement as worded is false for the unchanged code (an id given twice) -/
+theorem independent_exact_fails : ¬ IndependentExactStatement := by
+  intro h
+  have := (h (Graph.ofLists [[], [0]] [0, 1]) (by unfold Graph.WF; decide) (ofLists_nonneg _ _ (by decide))
+    [1, 1] (by decide) [] independent_duplicate_counterexample 1).mpr
+    ⟨by simp, by rintro ⟨o, ho, hne, _⟩; simp at ho; exact hne ho⟩
+  cases this
+
+/-- "the commits `find_octopus_base` reports are pairwise unrelated", for closed histories with non-negative,
+strictly increasing stamps. **False** for the unchanged code. -/
+def OctopusAntichainStatement : Prop :=
+  ∀ (g : Graph), g.WF → g.StrictMono → (∀ z, 0 ≤ g.ts z) → ∀ (ids : List Nat), (∀ c, c ∈ ids → c < g.n) →
+    ∀ r, findOctopusBase g ids = .ok r → ∀ x y, x ∈ r → y ∈ r → ¬ SAnc g x y
+
+theorem octopus_antichain_fails : ¬ OctopusAntichainStatement := by
+  intro h
+  refine h octo8 (by unfold Graph.WF; decide) octopus_fold_counterexample.2.1 (ofLists_nonneg _ _ (by decide))
+    [5, 6, 7] (by decide) [1, 2] octopus_fold_counterexample.1 1 2 (by simp) (by simp) ?_
+  exact ⟨1, by decide, Anc.refl 1⟩
+
+/-! ## 7. non-vacuity: the hypotheses of the theorems hold on non-trivial histories -/
 
 /-- criss-cross: 1 and 2 on 0; 3 and 4 both merge 1 and 2 -/
 def cross5 : Graph := Graph.ofLists [[], [0], [0], [1, 2], [1, 2]] [0, 1, 2, 3, 4]
@@ -407,6 +453,14 @@ example : Walk.walk (Graph.ofLists [[], [0], [0], [1, 2], [1, 2]] [7, 7, 7, 7, 7
       { incl := [3, 4], excl := [], topo := true, reverse := false, maxEntries := none, since := none,
         untl := none } = some [3, 4, 2, 1, 0] := by
   decide
+
+/-- the hypotheses of `walk_each_once` / `topo_reorder_correct` are satisfiable (rank = commit number) and the
+conclusion is about a non-trivial walk -/
+example : ∃ out, Walk.walk cross5 (plainWalk [3, 4] true false) = some out ∧ out.Nodup ∧
+    (∀ c, c ∈ out ↔ ∃ i, i ∈ [3, 4] ∧ Anc cross5 c i) ∧
+    (true = true → (if false then out.reverse else out).Pairwise (fun a b => a ∉ cross5.parents b)) :=
+  walk_each_once cross5 (by unfold Graph.WF; decide) [3, 4] (by decide) true false id
+    (ofLists_rank _ _ id (by decide))
 
 /-- `_topo_reorder` on an order that lists a parent first -/
 example : Walk.topoReorder cross5.parents [0, 3, 1, 4, 2] = some [3, 4, 1, 2, 0] := by decide
